@@ -5,14 +5,16 @@ namespace Hive.SafeMathErr
 /-- `classify` answers `overflow` exactly for the chains that reach the overflow sentinel and not the
 division-by-zero sentinel. -/
 theorem classify_overflow_iff (c : Chain) :
-    classify c = "overflow" ↔ (c.contains "ErrIntegerOverflow" = true ∧ c.contains "ErrIntegerDivisionByZero" = false) := by
+    classify c = "overflow" ↔
+      (c.contains "?" = false ∧ c.contains "ErrIntegerOverflow" = true ∧ c.contains "ErrIntegerDivisionByZero" = false) := by
   unfold classify
-  cases h1 : c.contains "ErrIntegerOverflow" <;> cases h2 : c.contains "ErrIntegerDivisionByZero" <;> simp <;> decide
+  cases h0 : c.contains "?" <;> cases h1 : c.contains "ErrIntegerOverflow" <;> cases h2 : c.contains "ErrIntegerDivisionByZero" <;> simp <;> decide
 
 theorem classify_divzero_iff (c : Chain) :
-    classify c = "divzero" ↔ (c.contains "ErrIntegerOverflow" = false ∧ c.contains "ErrIntegerDivisionByZero" = true) := by
+    classify c = "divzero" ↔
+      (c.contains "?" = false ∧ c.contains "ErrIntegerOverflow" = false ∧ c.contains "ErrIntegerDivisionByZero" = true) := by
   unfold classify
-  cases h1 : c.contains "ErrIntegerOverflow" <;> cases h2 : c.contains "ErrIntegerDivisionByZero" <;> simp <;> decide
+  cases h0 : c.contains "?" <;> cases h1 : c.contains "ErrIntegerOverflow" <;> cases h2 : c.contains "ErrIntegerDivisionByZero" <;> simp <;> decide
 
 /-- An accepted wrapper applied to a sentinel has the sentinel's chain: wrapping never changes what `errors.Is`
 finds (any environment, any sentinel, any wrapper name). -/
